@@ -105,8 +105,7 @@ S(id="TOK.find", props=["C15", "C12"], spec="tok.spec.c", harness="h_find_by_cod
   assumes=["TABLE_INV: a hit of the code hash table is a terminal with the looked-up code (HT.abs + symb_code_eq)"])
 S(id="TOK.vec", props=["C15", "C12"], spec="tok.spec.c", harness="h_finish_terms", mode="B", dfcc=True, loops=True, n_loops=1, canaries=2,
   params={"quick": {"NT": 3, "SPAN": 12}, "thorough": {"NT": 5, "SPAN": 40}}, timeout=1500,
-  cbmc=["--unwindset", "symb_finish_adding_terms.0:5,symb_finish_adding_terms.1:5,h_finish_terms.0:5,h_finish_terms.1:5,h_finish_terms.2:5", "--unwinding-assertions"],
-  cbmc_thorough=["--unwindset", "symb_finish_adding_terms.0:7,symb_finish_adding_terms.1:7,h_finish_terms.0:7,h_finish_terms.1:7,h_finish_terms.2:7", "--unwinding-assertions"],
+  unwind_all={"quick": 5, "thorough": 7},
   bound="<= 3 (thorough 5) terminals with distinct codes >= -2, either all within 12 (thorough 40) of the smallest or at least one >= 9998 (no vector); the NULL-fill loop is closed by its loop contract",
   functions=["symb_finish_adding_terms", "term_get"],
   what="VEC_INV established for every slot (ghost index): NULL or the terminal with exactly that code; every declared terminal found at its code; span arithmetic without overflow")
@@ -138,3 +137,70 @@ S(id="D.front", props=["C11", "C14", "C15"], spec="gram.spec.c", harness="h_pars
   replace=["set_sgrammar/set_sgrammar_c", "yaep_read_grammar/read_grammar_use_c", "free_sgrammar/free_sgrammar_c"], functions=["yaep_parse_grammar"],
   what="the argument is made the current grammar before the front end can fail (errors recorded in this object); a front-end failure returns its code; otherwise "
        "exactly what yaep_read_grammar returned on the replayed records; the intermediate form is released exactly once on every path")
+
+# ---------------- C14 / C17: storage layer of a grammar object ----------------
+ST = dict(spec="store.spec.c", link=["hashtab.c"], cbmc=["--unwindset", "empty_hash_table.0:6", "--unwinding-assertions"])
+for nm, fn, c, rep in [("symb_fin", "symb_fin", "symb_fin_c", ["_OS_delete_function/os_delete_c"]),
+                       ("term_set_fin", "term_set_fin", "term_set_fin_c", ["_OS_delete_function/os_delete_c"]),
+                       ("rule_fin", "rule_fin", "rule_fin_c", ["_OS_delete_function/os_delete_c"])]:
+    S(id="G.free." + nm, props=["C14", "C17"], harness="h_" + nm, mode="L", timeout=1200, enforce=["%s/%s" % (fn, c)], replace=rep, functions=[fn, "delete_hash_table"],
+      what="%s releases the container, its reference arrays, tables and code vector exactly once each through the current grammar's allocator (real free: CBMC's double/invalid free checks apply)" % fn, **ST)
+for nm, fn, c, rep in [("symb_empty", "symb_empty", "symb_empty_c", ["_OS_empty_function/os_empty_c"]),
+                       ("term_set_empty", "term_set_empty", "term_set_empty_c", ["_OS_empty_function/os_empty_c"]),
+                       ("rule_empty", "rule_empty", "rule_empty_c", ["_OS_empty_function/os_empty_c"])]:
+    S(id="G.fresh." + nm, props=["C14"], harness="h_" + nm, mode="B", dfcc=True, enforce=["%s/%s" % (fn, c)], replace=rep, functions=[fn, "empty_hash_table"],
+      bound="hash tables of <= 4 slots (empty_hash_table's loop unwound; its unbounded proof is HT.empty)",
+      what="%s leaves no symbol / set / rule behind: counters 0, tables empty (ghost slot), reference arrays empty, code vector released" % fn, **ST)
+S(id="G.fresh.empty_grammar", props=["C14"], spec="store.spec.c", harness="h_empty_grammar", mode="L", enforce=["yaep_empty_grammar/empty_grammar_c"],
+  replace=["rule_empty/rule_empty_use_c", "term_set_empty/term_set_empty_use_c", "symb_empty/symb_empty_use_c"], functions=["yaep_empty_grammar"],
+  what="all three storages of the CURRENT grammar are emptied exactly once")
+
+# ---------------- per-property evidence text ----------------
+TB_COMMON = ["models/alloc_model.h: allocate.c with the function pointers resolved to libc and the non-returning error branch cut (A.wrap/A.cb prove both facts on the real allocate.c)"]
+A_COMMON = [
+    "A3: longjmp resumes at the setjmp site with memory as at the jump; the two flag locals of yaep_parse hold their last written values",
+    "A4: LP64, two's complement; malloc'ed blocks are 8-aligned",
+    "A5b: DFCC-mode text differs from the real text exactly by rule R2 (error call sites non-variadic) and the swallowed fprintf: format arguments of error calls and of debug output are not evaluated",
+    "A6: caller-supplied callbacks return and do not call back into yaep",
+    "termination is not verified except where a decreases clause is stated",
+]
+PROPERTY_META = {
+    "C19": dict(trusted_base=TB_COMMON, assumptions=A_COMMON + [
+        "A-STAT: recorded as known finding F17 (int statistics counters)",
+        "A5: _VLO_expand_memory / _VLO_tailor_function are outside CBMC's memory model (pointer difference across realloc): native stand-in VLO.grow only; callers use its assumed contract",
+        "hpn_assumed_c: higher_prime_number(n) is a prime in (n, 2n+3] (Bertrand); native exhaustive stand-in HT.hpn.native up to the cap"],
+        unverified=["termination of the probe loop of find_hash_table_entry", "tables / objects larger than the stated caps (CAP)", "expand_hash_table beyond the bounded set",
+                    "history-level statement 'finds exactly the elements inserted and not removed' is carried per operation (HT.find/HT.remove/HT.create/HT.empty postconditions over an arbitrary slot); composition over histories is the paper induction of DESIGN 4.4",
+                    "C++ twins hashtab.cpp / objstack.cpp / vlobject.cpp (CBMC's C++ front end: see DESIGN)"],
+        explanation="C19: per-operation contracts on the real hashtab.c, objstack.c (incl. macros through one-line wrappers) and vlobject.c macros."),
+    "C15": dict(trusted_base=TB_COMMON, assumptions=A_COMMON + ["A7: contracts of the parser internals called by yaep_parse (tok_init, read_toks, yaep_parse_init, build_pl, make_parse, yaep_parse_fin, tok_fin) are assumed in API.parse; read_toks and tok_add are enforced separately (TOK.*)",
+                                                  "TABLE_INV: a hit of the code hash table is a terminal with the looked-up code"],
+        unverified=["build_pl, make_parse, yaep_parse_init/fin internals", "message text of yaep_error beyond 'fits and is NUL-terminated'"],
+        explanation="C15: setters/accessors loop-free full domain; yaep_parse phase A/B; token layer; yaep_create_grammar defaults."),
+    "C14": dict(trusted_base=TB_COMMON, assumptions=A_COMMON + ["A7 as for C15", "induction over API calls (DESIGN 4.4): every API function is enforced from arbitrary file-scope state + object invariant + PLINV and re-establishes them"],
+        unverified=["'returns what a fresh object would return' beyond the state equalities proved (needs functional correctness of the parser, C01)", "yaep_read_grammar body beyond its prefix (see C10)"],
+        explanation="C14: lifecycle (create/free/redefine/parse) contracts with unconstrained file-scope state."),
+    "C17": dict(trusted_base=TB_COMMON, assumptions=A_COMMON + ["A7 as for C15"],
+        unverified=["allocation sites inside build_pl / make_parse / error_recovery and the per-parse tables: that the containers satisfy their invariants at those sites is assumed; the unwinding branch they jump to is verified (API.parse.unwind)",
+                    "F11: set_sgrammar's error branch deletes containers that were not created yet (known finding)"],
+        explanation="C17: exit protocol: every allocation site under contract carries the exit assertion; the four unwinding branches are verified from any state satisfying it."),
+    "C12": dict(trusted_base=TB_COMMON, assumptions=A_COMMON, unverified=["absence of UB inside build_new_set, expand_new_start_set, error_recovery, make_parse, yyparse", "bounded time (termination)"],
+        explanation="C12: all built-in safety classes of every function under contract (aggregated) + targeted anchors (message buffer, code vector, lexer, parser-list size)."),
+}
+
+# ---------------- C17: allocate.c ----------------
+for nm, fn, c, can in [("malloc", "yaep_malloc", "ymalloc_c", 2), ("realloc", "yaep_realloc", "yrealloc_c", 2), ("calloc", "yaep_calloc", "ycalloc_c", 2),
+                       ("free", "yaep_free", "yfree_c", 1), ("seterr", "yaep_alloc_seterr", "seterr_c", 1), ("getuserptr", "yaep_alloc_getuserptr", "getuserptr_c", 1),
+                       ("geterrfunc", "yaep_alloc_geterrfunc", "geterrfunc_c", 1)]:
+    S(id="A.wrap." + nm, props=["C17", "C12"], spec="alloc.spec.c", harness="h_y" + nm if nm in ("malloc", "realloc", "calloc", "free") else "h_" + nm, mode="L",
+      canaries=can, enforce=["%s/%s" % (fn, c)], functions=[fn],
+      defines=["malloc=vl_malloc", "calloc=vl_calloc", "realloc=vl_realloc", "free=vl_free"],   # goto-instrument 6.11 crashes when libc allocators are used as pointer values
+      what="%s: a failed non-empty request is reported exactly once through the installed error function with the installed user pointer; a NULL allocator is tolerated" % fn
+           if can == 2 else "%s: accessor / setter frame" % fn)
+S(id="A.cb", props=["C17"], spec="gram.spec.c", harness="h_errfunc", mode="L", enforce=["error_func_for_allocate/errfunc_c"], replace=["verif_error_exit/err_nomem_c"],
+  functions=["error_func_for_allocate"], what="the error callback yaep installs raises YAEP_NO_MEMORY through yaep_error and never returns (so a failed request never hands NULL back to the containers)")
+S(id="API.err.raise", props=["C15", "C12"], spec="err.spec.c", harness="h_yaep_error", mode="L", dfcc=False, instr=["--drop-unused-functions"],
+  defines=["vsnprintf=verif_vsnprintf", "longjmp=verif_longjmp"], expect_fail=[], functions=["yaep_error"],
+  what="faithful mode (real variadic text): the code raised is stored in the current grammar and is the value the API call returns; the message is formatted into the "
+       "object's buffer with a size that fits it, is non-empty and NUL-terminated; yaep_error never returns",
+  assumes=["A2: models of vsnprintf (writes at most n-1 characters and a NUL) and longjmp (never returns)"])
